@@ -222,6 +222,7 @@ PROPERTY_RULES: Dict[str, List[Scoped]] = {
         _r("ENUM-NO-TRUNCATION", ("utils.trees:all_trees", "utils.disjoint_set:")), _r("NAME-AS-KEY"),
         _r("TREE-ITER-EXPLICIT", S_TREES),
         _r("ITERABLE-ONCE", S_TREES),
+        _r("BINARY-COARSENINGS"),
     ],
 }
 
@@ -666,7 +667,7 @@ _DECIDED_ROUND5 = {
     'C16': ['update examines every candidate it is offered, never a pre-selected or truncated batch (UPDATE-ALL-CANDIDATES)'],
     'C17': ['no direct iteration / len() of a tree in the ancestry structures (TREE-ITER-EXPLICIT)'],
     'C19': ['vertices are treated as opaque hashable values: never sorted or compared with < (NODE-OPAQUE)'],
-    'C20': ['no direct iteration of a tree (TREE-ITER-EXPLICIT); deep copies of tree nodes use the detaching `.copy()` (COPY-FAITHFUL); a parameter annotated Iterable is walked once or materialised first (ITERABLE-ONCE)'],
+    'C20': ['no direct iteration of a tree (TREE-ITER-EXPLICIT); deep copies of tree nodes use the detaching `.copy()` (COPY-FAITHFUL); a parameter annotated Iterable is walked once or materialised first (ITERABLE-ONCE)', 'abstract execution of DisjointSet.binary on every partition of 1..5 blocks in every listing order of the blocks: exactly the 2**(k-1) - 1 two-block coarsenings, each once (BINARY-COARSENINGS)'],
 }
 for _k5, _v5 in _DECIDED_ROUND5.items():
     _DECIDED_ROUND4.setdefault(_k5, [])
